@@ -76,6 +76,8 @@ type Upstream struct {
 
 	wireConnMu sync.Mutex // guards wireConn between resume and a concurrent Close
 
+	closedNotified sync.Once // the closed event is delivered once, whichever close path gets there first
+
 	sent   sentStorage
 	logger log.Logger
 
@@ -186,11 +188,13 @@ func (u *Upstream) closeWithError(ctx context.Context, causeError error, opts ..
 		}
 	}
 	defer func() {
-		u.eventDispatcher.addHandler(func() {
-			u.Config.ClosedEventHandler.OnUpstreamClosed(&UpstreamClosedEvent{
-				Config: u.Config,
-				State:  *u.State(),
-				Err:    causeError,
+		u.closedNotified.Do(func() {
+			u.eventDispatcher.addHandler(func() {
+				u.Config.ClosedEventHandler.OnUpstreamClosed(&UpstreamClosedEvent{
+					Config: u.Config,
+					State:  *u.State(),
+					Err:    causeError,
+				})
 			})
 		})
 	}()
@@ -203,11 +207,13 @@ func (u *Upstream) notifyClosedWithError(causeError error) {
 	if causeError == nil {
 		return
 	}
-	u.eventDispatcher.addHandler(func() {
-		u.Config.ClosedEventHandler.OnUpstreamClosed(&UpstreamClosedEvent{
-			Config: u.Config,
-			State:  *u.State(),
-			Err:    causeError,
+	u.closedNotified.Do(func() {
+		u.eventDispatcher.addHandler(func() {
+			u.Config.ClosedEventHandler.OnUpstreamClosed(&UpstreamClosedEvent{
+				Config: u.Config,
+				State:  *u.State(),
+				Err:    causeError,
+			})
 		})
 	})
 }
